@@ -9,7 +9,15 @@ broadcast use {effectlog::group_effectlog, recv::group_recv};
 global size_of usize == 8;
 
 #[verifier::external_body] pub struct IoError { _p: u8 }
-pub enum ErrorKind { InvalidData, UnexpectedEof, Other }
+/// std::io::ErrorKind: the kinds this crate names plus a few others (any kind may come out of the OS)
+#[derive(Structural, PartialEq, Eq)]
+pub enum ErrorKind { InvalidData, UnexpectedEof, Unsupported, InvalidInput, TimedOut, Interrupted, Other }
+#[verifier::external_body] pub struct ActorProcessingErr { _p: u8 }
+/// the session actor / the reader actor itself
+#[verifier::external_body] pub struct SessionActorRef { _p: u8 }
+#[verifier::external_body] pub struct ReaderRef { _p: u8 }
+pub enum SessionMessage { ObjectAvailable(NetworkMessage), Other }
+#[verifier::external_body] pub struct MessagingErr { _p: u8 }
 #[verifier::external_body] pub struct ReadStub { _p: u8 }
 #[verifier::external_body] pub struct Bytes { _p: u8 }
 #[verifier::external_body] pub struct NetworkMessage { _p: u8 }
@@ -51,10 +59,17 @@ pub mod vocab {
         ReadReq(usize, usize),
         /// a read request that failed with an I/O error
         ReadFailed(usize),
+        /// the reader actor handed a decoded frame to its session
+        Forward,
+        /// the reader actor asked itself for the next frame
+        Rearm,
+        /// the reader actor stopped itself (the session follows: it supervises the reader)
+        StopReader,
     }
-    pub enum Kind { ReadLen, Readable, ReadReq, ReadFailed }
+    pub enum Kind { ReadLen, Readable, ReadReq, ReadFailed, Forward, Rearm, StopReader }
     pub open spec fn kind_of(e: Effect) -> Kind {
-        match e { Effect::ReadLen => Kind::ReadLen, Effect::Readable => Kind::Readable, Effect::ReadReq(_, _) => Kind::ReadReq, Effect::ReadFailed(_) => Kind::ReadFailed }
+        match e { Effect::ReadLen => Kind::ReadLen, Effect::Readable => Kind::Readable, Effect::ReadReq(_, _) => Kind::ReadReq, Effect::ReadFailed(_) => Kind::ReadFailed,
+            Effect::Forward => Kind::Forward, Effect::Rearm => Kind::Rearm, Effect::StopReader => Kind::StopReader }
     }
     }
 }
@@ -176,3 +191,39 @@ impl ReadStub {
     ensures f.possible(o), final(log).s == old(log).s.push(f.effect_of(o)),
 )]
 pub fn vx_await<F: VxFuture>(f: F) -> F::Output { unimplemented!() }
+
+#[verus_verify]
+impl IoError {
+    #[verus_verify(external_body)]
+    pub fn kind(&self) -> ErrorKind { unimplemented!() }
+}
+#[verus_verify]
+impl SessionActorRef {
+    #[verus_verify(external_body)]
+    #[verus_spec(r =>
+        with Tracked(log): Tracked<&mut EffectLog>
+        ensures final(log).s == old(log).s.push(Effect::Forward))]
+    pub fn cast(&self, m: SessionMessage) -> Result<(), MessagingErr> { unimplemented!() }
+}
+#[verus_verify]
+impl ReaderRef {
+    #[verus_verify(external_body)]
+    #[verus_spec(r =>
+        with Tracked(log): Tracked<&mut EffectLog>
+        ensures final(log).s == old(log).s.push(Effect::Rearm))]
+    pub fn cast(&self, m: SessionReaderMessage) -> Result<(), MessagingErr> { unimplemented!() }
+    #[verus_verify(external_body)]
+    #[verus_spec(
+        with Tracked(log): Tracked<&mut EffectLog>
+        ensures final(log).s == old(log).s.push(Effect::StopReader))]
+    pub fn stop(&self, reason: Option<String>) { unimplemented!() }
+}
+#[verus_verify(external_body)]
+pub fn vx_drop<T>(t: T) { }
+
+verus! {
+/// only I/O effects between `a` and `b` (nothing the reader ACTOR does)
+pub open spec fn io_only(a: Seq<Effect>, b: Seq<Effect>) -> bool {
+    delta(a, b, Kind::Forward) == 0 && delta(a, b, Kind::Rearm) == 0 && delta(a, b, Kind::StopReader) == 0
+}
+}
